@@ -114,8 +114,8 @@ EX = dict(llc.BITS_EXTRACTS,
                           (r'link_layer\.phy_update\( (\w+), (\w+), link_layer\.connection_data_, link_layer \);', r'cb_phy_update( \1, \2 );', '+')]),
     phy_enc=dict(kind='enum', file='bluetoe/link_layer/include/bluetoe/phy_encodings.hpp', name='phy_ll_encoding_t', rename='phy_ll_encoding'),
     phy_req=dict(file=LL, scope=PHYS, locate=r'bool handle_phy_request\( std::uint8_t opcode, std::uint8_t size, const write_buffer& pdu, read_buffer& write, LL& link_layer, bool& commit \)', pre=PHY_PRE, no_members=True),
-    no_phy_req=dict(file=LL, scope=r'struct no_phy_update_request_impl\s*(?=\{)', locate=r'bool handle_phy_request\( std::uint8_t opcode, std::uint8_t, const write_buffer&, read_buffer, LL& link_layer, bool& \)', no_members=True,
-                    pre=[(r'\bLL::', '', '+'), (r'link_layer\.procedure_timeout_\s*= delta_time\(\);', 'self->procedure_timeout_ = 0;', '*'), (r'\blink_layer\.', 'self->', '+')]),
+    no_phy_req=dict(file=LL, scope=r'struct no_phy_update_request_impl\s*(?=\{)', locate=r'bool handle_phy_request\( std::uint8_t(?: opcode)?, std::uint8_t, const write_buffer&, read_buffer, LL&(?: link_layer)?, bool& \)', no_members=True,
+                    pre=[(r'\bLL::', '', '*'), (r'link_layer\.procedure_timeout_\s*= delta_time\(\);', 'self->procedure_timeout_ = 0;', '*'), (r'\blink_layer\.', 'self->', '*')]),
     phy_valid=dict(file=LL, scope=PHYS, locate=r'bool valid_phy_encoding\( std::uint8_t c \) const', pre=PHY_PRE[4:5], no_members=True),
 )
 CODE = llc.BITS_CODE + '\n'.join('#define %s ((uint8_t)({{%s}}))' % (k, k) for k in OPS) + r'''
